@@ -219,8 +219,9 @@ def run(ctx):
     if not sch.names:
         ctx.note_drift('no attribute of the shared objects is stored to outside __init__: only lock operations are scheduling points')
     sched.install(sch)
-    real_threading = conn_http.threading
-    conn_http.threading = sched.ThreadingShim(sch)       # locks created by the module (also lazily) are cooperative
+    real_threading = getattr(conn_http, 'threading', None)     # (a module that uses no locks does not import it)
+    if real_threading is not None:
+        conn_http.threading = sched.ThreadingShim(sch)       # locks created by the module (also lazily) are cooperative
     static_locks = _static_locks(conn_http)              # locks created at import time: replaced by cooperative ones per execution
     static_saved = [(ow, n, getattr(ow, n)) for ow, n in static_locks]
     groups = {}
@@ -326,7 +327,8 @@ def run(ctx):
                 ctx.extra['schedule_limit_hit'] = True
     finally:
         sched.uninstall(sch)
-        conn_http.threading = real_threading
+        if real_threading is not None:
+            conn_http.threading = real_threading
         for ow, n, v in static_saved:
             setattr(ow, n, v)
         transport.__exit__()
@@ -383,8 +385,9 @@ def replay(ctx, case):
     shared_classes = sorted({type(o) for o in _shared_state(conn_http, probe)}, key=lambda c: c.__name__)
     sch = sched.Scheduler(shared_classes, lambda: holder.get('objs', []))
     sched.install(sch)
-    real_threading = conn_http.threading
-    conn_http.threading = sched.ThreadingShim(sch)
+    real_threading = getattr(conn_http, 'threading', None)     # (a module that uses no locks does not import it)
+    if real_threading is not None:
+        conn_http.threading = sched.ThreadingShim(sch)
     static_locks = _static_locks(conn_http)
     static_saved = [(ow, n, getattr(ow, n)) for ow, n in static_locks]
     try:
@@ -451,7 +454,8 @@ def replay(ctx, case):
         sch.run(bodies, case['schedule'])
     finally:
         sched.uninstall(sch)
-        conn_http.threading = real_threading
+        if real_threading is not None:
+            conn_http.threading = real_threading
         for ow, n, v in static_saved:
             setattr(ow, n, v)
         transport.__exit__()
